@@ -33,6 +33,7 @@ type Spec struct {
 	Batch          int  `json:"batch"`                                // seed offset so that batches differ
 	Shared128First bool `json:"shared_secret_aes128_first,omitempty"` // the key list starts with an aes-128-gcm key of the SAME secret
 	EmptyID        bool `json:"empty_id,omitempty"`                   // the key's ID is the empty string
+	LateKey        int  `json:"late_key,omitempty"`                   // the handler is built around an empty (1) / aes-128-only (2) key list; the keys arrive afterwards through CipherList.Update (a reload)
 	Between        bool `json:"other_key_between,omitempty"`          // before every reflection the reflecting client IP makes a valid connection under the OTHER key (another cipher, another salt size)
 	RandFailAfter  int  `json:"rand_fail_after,omitempty"`            // the system's random source fails from its n-th read on (connections may then fail, but no salt may repeat)
 }
@@ -80,7 +81,19 @@ func build(s Spec) *engine.Scenario {
 		if s.Shared128First && s.Cipher != 3 {
 			list = []*world.Key{world.MakeKey("same-secret-aes128", world.Ciphers[3], key.Secret), other, key}
 		}
-		w := world.NewTCP(list, s.Cache, T)
+		var w *world.TCP
+		switch s.LateKey {
+		case 0:
+			w = world.NewTCP(list, s.Cache, T)
+		case 1:
+			w = world.NewTCP(nil, s.Cache, T)
+		default:
+			w = world.NewTCP([]*world.Key{world.MakeKey("early-aes128", world.Ciphers[3], "e@rly")}, s.Cache, T)
+		}
+		if s.LateKey > 0 {
+			w.List.Update(world.MakeList(list))
+			w.Keys = list
+		}
 		w.Start()
 		reply := world.Pattern(9, 120)
 		tgt := world.StartTarget("93.184.216.34:80", func(t *world.Target, i int, c *vnet.TCPConn) {
@@ -231,6 +244,10 @@ func specs(tier string) []Spec {
 		// a key with an empty ID; another key (other salt size) used by the same client IP in between
 		for _, cache := range []int{-1, 100} {
 			out = append(out, Spec{Cipher: c, Conns: 4, Cache: cache, Batch: 960 + c, EmptyID: true}, Spec{Cipher: c, Conns: 4, Cache: cache, Batch: 970 + c, Between: true})
+		}
+		// the keys reach a handler that was built without them (configuration reload)
+		for _, late := range []int{1, 2} {
+			out = append(out, Spec{Cipher: c, Conns: 4, Cache: []int{-1, 100}[late-1], Batch: 980 + c, LateKey: late})
 		}
 		// the entropy source starts failing after a few connections: the server may fail them, but
 		// whatever salts it still sends must not repeat
